@@ -20,13 +20,13 @@ type gthread struct {
 	waitSeq  int
 	gotCh    *chanV // direct hand-off: a sender gave its value to this blocked receiver
 	gotVal   value
-	id      int
-	resume  chan bool // true: run, false: abort
-	done    bool
-	canRun  func() bool // nil: runnable
-	what    string
-	vc      []int
-	started bool
+	id       int
+	resume   chan bool // true: run, false: abort
+	done     bool
+	canRun   func() bool // nil: runnable
+	what     string
+	vc       []int
+	started  bool
 }
 
 type accessRec struct {
